@@ -278,9 +278,9 @@ pub enum Version { V1, V2, V3 }
 
 /// indicator style for the isstd/isut arrays
 #[derive(Clone, Copy, Debug, PartialEq, Eq, Serialize, Deserialize)]
-pub enum Indicators { None, Wall, Std, Ut }
+pub enum Indicators { None, Wall, Std, Ut, StdOnly, UtZerosOnly }
 
-fn block(m: &Model, time64: bool, ind: Indicators, transitions: &[(i64, usize)], extra_chars: usize) -> Vec<u8> {
+fn block(m: &Model, time64: bool, ind: Indicators, transitions: &[(i64, usize)], extra_chars: usize, leaps: &[(i64, i32)]) -> Vec<u8> {
     // designation table: unique abbreviations, NUL-terminated
     let mut table: Vec<u8> = vec![];
     let mut index: Vec<u8> = vec![];
@@ -304,13 +304,20 @@ fn block(m: &Model, time64: bool, ind: Indicators, transitions: &[(i64, usize)],
     }
     out.extend(&table);
     out.extend(unused_designations(extra_chars));
-    // no leap-second records
+    // leap-second records: (occurrence in leap time, total correction from then on)
+    for (t, c) in leaps {
+        if time64 { out.extend(t.to_be_bytes()); } else { out.extend((*t as i32).to_be_bytes()); }
+        out.extend(c.to_be_bytes());
+    }
     let n = m.types.len();
     match ind {
         Indicators::None => {}
         Indicators::Wall => { out.extend(vec![0u8; n]); out.extend(vec![0u8; n]); }
         Indicators::Std => { out.extend(vec![1u8; n]); out.extend(vec![0u8; n]); }
         Indicators::Ut => { out.extend(vec![1u8; n]); out.extend(vec![1u8; n]); }
+        // RFC 8536: each of the two counts is independently zero or typecnt
+        Indicators::StdOnly => { out.extend((0..n).map(|i| (i % 2) as u8)); }
+        Indicators::UtZerosOnly => { out.extend(vec![0u8; n]); }
     }
     out
 }
@@ -343,14 +350,36 @@ pub fn write_tzif(m: &Model, version: Version, ind: Indicators, explicit_footer:
 }
 /// as `write_tzif`, with `extra_chars` bytes of unused designations appended to the table
 pub fn write_tzif_ext(m: &Model, version: Version, ind: Indicators, explicit_footer: bool, extra_chars: usize) -> Vec<u8> {
+    write_tzif_leap(m, version, ind, explicit_footer, extra_chars, &[])
+}
+/// Unix time -> the leap-time scale of a file with these leap-second records (the correction of the last
+/// record at or before it). Callers keep transitions away from the records, so the choice is unambiguous.
+pub fn to_leap_time(t: i64, leaps: &[(i64, i32)]) -> i64 {
+    let mut c = 0i64;
+    for (l, corr) in leaps {
+        if t.saturating_add(*corr as i64) >= *l { c = *corr as i64; } else { break; }
+    }
+    t.saturating_add(c)
+}
+/// as `write_tzif_ext`, with leap-second records; the model's transition times are Unix times and are
+/// written in the leap-time scale
+pub fn write_tzif_leap(m: &Model, version: Version, ind: Indicators, explicit_footer: bool, extra_chars: usize, leaps: &[(i64, i32)]) -> Vec<u8> {
     let n = m.types.len();
-    let icount = if ind == Indicators::None { 0 } else { n };
-    let fits32: Vec<(i64, usize)> = m.transitions.iter().copied().filter(|t| t.0 >= i32::MIN as i64 && t.0 <= i32::MAX as i64).collect();
-    let mut out = header(version, icount, icount, 0, fits32.len(), n, chars_len(m) + extra_chars);
-    out.extend(block(m, false, ind, &fits32, extra_chars));
+    let all: Vec<(i64, usize)> = m.transitions.iter().map(|t| (to_leap_time(t.0, leaps), t.1)).collect();
+    let leaps32: Vec<(i64, i32)> = leaps.iter().copied().filter(|l| l.0 <= i32::MAX as i64).collect();
+    // (isutcnt, isstdcnt)
+    let (ucount, scount) = match ind {
+        Indicators::None => (0, 0),
+        Indicators::StdOnly => (0, n),
+        Indicators::UtZerosOnly => (n, 0),
+        _ => (n, n),
+    };
+    let fits32: Vec<(i64, usize)> = all.iter().copied().filter(|t| t.0 >= i32::MIN as i64 && t.0 <= i32::MAX as i64).collect();
+    let mut out = header(version, ucount, scount, leaps32.len(), fits32.len(), n, chars_len(m) + extra_chars);
+    out.extend(block(m, false, ind, &fits32, extra_chars, &leaps32));
     if version != Version::V1 {
-        out.extend(header(version, icount, icount, 0, m.transitions.len(), n, chars_len(m) + extra_chars));
-        out.extend(block(m, true, ind, &m.transitions, extra_chars));
+        out.extend(header(version, ucount, scount, leaps.len(), all.len(), n, chars_len(m) + extra_chars));
+        out.extend(block(m, true, ind, &all, extra_chars, leaps));
         out.push(b'\n');
         if let Some(r) = &m.footer { out.extend(r.to_tz_string(explicit_footer).bytes()); }
         out.push(b'\n');
